@@ -41,6 +41,8 @@ var alphabet = []POp{
 
 var extra = []POp{
 	{Kind: "putmany", Keys: []string{"a", "a"}}, {Kind: "cas", Key: "a", Ver: "own"}, {Kind: "create", Key: "b"}, {Kind: "delete", Key: "b"},
+	// a slash-prefixed key: every operation must map it to the same stored key
+	{Kind: "put", Key: "/s"}, {Kind: "getmany", Keys: []string{"/s", "a"}}, {Kind: "get", Key: "/s"},
 }
 
 type scen struct {
@@ -207,7 +209,7 @@ func job(sc scen, cfg vsched.Config) sdrv.Job {
 			return true
 		})
 		// final read-all: losers must have changed nothing, and versions of unobserved writes become known
-		for _, k := range []string{"a", "b"} {
+		for _, k := range []string{"a", "b", "/s"} {
 			i := h.Begin(kvh.HOp{Thread: 91, Kind: "get", Key: k})
 			r, err := st0.Get(ctx, k)
 			h.End(i, string(r.Value), r.Version, kvh.ErrClass(err))
